@@ -31,6 +31,12 @@ BODY = {
         "if len(toks) != 1: return explain('not exactly one token', len(toks))",
         "return toks[0].name == TokenType.GENERAL and toks[0].value == s",
     ]),
+    "key_lex_followed": ("ALL_KEYS", [
+        "for follower in ('+', '1', 'a'):",
+        "    toks = tokenise(s + follower)",
+        "    if len(toks) < 1 or toks[0].name != TokenType.GENERAL or toks[0].value != s: return explain('a following character changes how the key is scanned', follower)",
+        "return True",
+    ]),
     "elem_parse": ("ELEMENT_KEYS", [
         "tree = parse(tokenise(s))",
         "if len(tree) != 1 or type(tree[0]) is not STRUCT.GenericStatement: return explain('element key is shadowed by syntax')",
@@ -177,7 +183,7 @@ def build(tier, seed, known):
         excl = known_exclusions(known, fam)
         pres = ["any(s == k for k in %s)" % keyset] + ["not (%s)" % e for e in excl]
         src += fn_src(fam, "s: str", pres, body)
-        plan.obs.append(Ob(fam, fam, "m", fam, 240, "confirmed", "every key of %s: %s" % (keyset, {"key_lex": "code-page characters only and exactly one GENERAL token", "elem_parse": "parses to one GenericStatement (not shadowed by syntax)",
+        plan.obs.append(Ob(fam, fam, "m", fam, 240, "confirmed", "every key of %s: %s" % (keyset, {"key_lex": "code-page characters only and exactly one GENERAL token", "key_lex_followed": "still scanned as that one token when another character follows (no key is swallowed by a digraph prefix)", "elem_parse": "parses to one GenericStatement (not shadowed by syntax)",
                            "mod_parse": "binds the documented number of following elements", "struct_parse": "opens its structure and is closed by its closer"}[fam]), "membership precondition over the live table (finite, exhaustive)"))
     src += fn_src("twin_key_lex", "s: str", ["any(s == k for k in ALL_KEYS)"], ["return len(tokenise(s)) == 1 and len(s) == 1"])
     plan.obs.append(Ob("twin_key_lex", "key_lex", "m", "twin_key_lex", 120, "refuted", "reachability twin (digraph keys have 2 characters)"))
